@@ -37,6 +37,16 @@ type writeLog struct {
 	Updated []client.Object
 	Status  []client.Object
 	Patched []client.Object
+	// AppliedPods counts the pod creations / deletions the API server applied
+	AppliedPods int
+}
+
+func (wl *writeLog) applied(obj client.Object, err error) {
+	if _, ok := obj.(*corev1.Pod); ok && err == nil {
+		wl.mu.Lock()
+		wl.AppliedPods++
+		wl.mu.Unlock()
+	}
 }
 
 func loggingClient(objs []client.Object, wl *writeLog, failAt map[int]string) client.Client {
@@ -63,6 +73,7 @@ func loggingClient(objs []client.Object, wl *writeLog, failAt map[int]string) cl
 				return fmt.Errorf("injected")
 			}
 			err := c.Create(ctx, obj, opts...)
+			wl.applied(obj, err)
 			if f == "lost" {
 				return fmt.Errorf("injected (applied)")
 			}
@@ -78,6 +89,7 @@ func loggingClient(objs []client.Object, wl *writeLog, failAt map[int]string) cl
 				return fmt.Errorf("injected")
 			}
 			err := c.Delete(ctx, obj, opts...)
+			wl.applied(obj, err)
 			if f == "lost" {
 				return fmt.Errorf("injected (applied)")
 			}
@@ -306,7 +318,10 @@ func streamEdsReconcile(r *rand.Rand, i int, tier string) *Case {
 			}
 		}
 	}
-	eds.Status.State = pick(r, edsv1.ExtendedDaemonSetStatusStateRunning, edsv1.ExtendedDaemonSetStatusStateCanary, "")
+	eds.Status.State = pick(r, edsv1.ExtendedDaemonSetStatusStateRunning, edsv1.ExtendedDaemonSetStatusStateCanary, "",
+		edsv1.ExtendedDaemonSetStatusStateRunning, edsv1.ExtendedDaemonSetStatusStateCanary,
+		edsv1.ExtendedDaemonSetStatusStateCanaryFailed, edsv1.ExtendedDaemonSetStatusStateCanaryPaused,
+		edsv1.ExtendedDaemonSetStatusStateRollingUpdatePaused, edsv1.ExtendedDaemonSetStatusStateRolloutFrozen)
 	if r.Intn(3) == 0 {
 		eds.Status.Conditions = append(eds.Status.Conditions, edsv1.ExtendedDaemonSetCondition{Type: edsv1.ConditionTypeEDSCanaryPaused,
 			Status: pick(r, corev1.ConditionTrue, corev1.ConditionFalse), LastTransitionTime: mt(now.Add(-time.Hour)), LastUpdateTime: mt(now.Add(-time.Hour))})
@@ -333,7 +348,30 @@ func streamEdsReconcile(r *rand.Rand, i int, tier string) *Case {
 		cpods = []canon.Pod{}
 	}
 	wl := &writeLog{}
-	cl := loggingClient(objs, wl, nil)
+	// one case in three starts from the store a previous Reconcile left behind, that Reconcile having
+	// lost one of its first writes (rejected, or applied with the answer lost): the states "between
+	// two writes" that only a crash or an API error produces.
+	var failAt map[int]string
+	prerun := r.Intn(3) == 0
+	if prerun {
+		failAt = map[int]string{}
+		if r.Intn(4) != 0 {
+			failAt[r.Intn(3)] = pick(r, "reject", "reject", "lost")
+		}
+	}
+	cl := loggingClient(objs, wl, failAt)
+	if prerun {
+		mode0 := pick(r, edsv1.ExtendedDaemonSetSpecStrategyCanaryValidationModeAuto, edsv1.ExtendedDaemonSetSpecStrategyCanaryValidationModeManual)
+		pre, _ := runEdsReconcile(newEDSReconciler(cl, mode0), wl, testNS, testEDS)
+		cat = append(cat, "after-previous-reconcile:"+pre.Kind)
+		wl.mu.Lock()
+		wl.Order, wl.Created, wl.Deleted, wl.Updated, wl.Status, wl.Patched = nil, nil, nil, nil, nil, nil
+		wl.mu.Unlock()
+		for k := 0; k < 8; k++ { // no more faults
+			delete(failAt, k)
+		}
+		time.Sleep(2 * time.Millisecond)
+	}
 	// list order of replica sets as the API returns it
 	lst := &edsv1.ExtendedDaemonSetReplicaSetList{}
 	_ = cl.List(context.TODO(), lst)
